@@ -3,9 +3,8 @@ C08 ops: the Lean-verified checker (`Model/CompileCheck.lean`, sound by `Thm/C08
 to the outputs of the real policy compiler.
 
   J compiled   <ctx[:descriptor kind]> <policy> <ast> <ty|ext of every node, pre-order, `;`>
-  J ctxfrag    <ctx[:descriptor kind]> <policy> <ast>       (`d:` / `or_i` permission of the context)
   J compiledtr <entry> <policy> <internal key id|UNSPENDABLE> <leaf;…|-> <annotations `;;` per leaf|->
-  J reparse | reparse-frag <target> <policy> <printed output> <verdict computed by the harness>
+  J reparse    <target> <policy> <printed output> <verdict computed by the harness>
   C sane       <ctx> <ast>                                  (model of `validate(&Ctx::SANE)`)
 -/
 import MsVerif.Driver.OpsMs
@@ -59,6 +58,7 @@ def whyInsane (env : KeyEnv) (ctx : Ctx) (m : Ms) : String :=
     else if !ty.mall.nonMall then "malleable"
     else if !(ty.corr.base == .B) then "not-B"
     else if !ty.mall.signed then "sigless"
+    else if !fragsIfOk ctx m then "d-or-or_i-not-allowed-in-this-context"
     else "resource-limits"
 
 def rootTy (ann : String) : Option Ty :=
@@ -79,12 +79,12 @@ def judgeCompiled (t : Tables) (target policy ast ann : String) : Option String 
   if !(typeOf out == some ty) then pure "bad:type" else
   if !((ty.corr.base == .B) && ty.mall.signed && ty.mall.nonMall) then pure "bad:top(B,signed,nonmalleable)" else
   if validateSane env ctx out != saneByC12 env ctx out then pure "bad:models-of-validate-disagree" else
-  if !validateRest env ctx out then pure s!"bad:sane({whyInsane env ctx out})" else
+  if !validateSane env ctx out then pure s!"bad:sane({whyInsane env ctx out})" else
   match firstBad P out with
   | some W => pure s!"bad:semantics({showWorld (Pol.atomsOfC P ++ msAtoms out) W}:policy={Pol.holdsCW W P},output={semMs out W})"
   | none =>
-    -- the verdict of the verified checker itself (the `d:`/`or_i` permission is judged by `ctxfrag`)
-    if checkCompile env P ctx out ty || !fragsIfOk ctx out then pure "ok" else pure "bad:checker-inconsistent"
+    -- the verdict of the verified checker itself
+    if checkCompile env P ctx out ty then pure "ok" else pure "bad:checker-inconsistent"
 
 def parseLeaves (s : String) : Option (List Ms) :=
   if s == "-" then some [] else (s.splitOn ";").mapM parseAst
@@ -118,15 +118,9 @@ def judgeCompiledTr (t : Tables) (entry policy internal leaves anns : String) : 
 def opsCompile (t : Tables) (kind op : String) (args : List String) : Option String :=
   match kind, op, args with
   | "J", "compiled", [target, policy, ast, ann] => judgeCompiled t target policy ast ann
-  | "J", "ctxfrag", [target, _policy, ast] => do
-    let ctx ← parseTarget target
-    let out ← parseAst ast
-    pure (if fragsIfOk ctx out then "ok" else "bad:d-or-or_i-not-allowed-in-this-context")
   | "J", "compiledtr", [entry, policy, internal, leaves, anns] =>
     judgeCompiledTr t entry policy internal leaves anns
   | "J", "reparse", [_target, _policy, _printed, verdict] =>
-    some (if verdict == "same/sane" then "ok" else s!"bad:{verdict}")
-  | "J", "reparse-frag", [_target, _policy, _printed, verdict] =>
     some (if verdict == "same/sane" then "ok" else s!"bad:{verdict}")
   | "C", "sane", [ctx, ast] => do
     let ctx ← parseCtx ctx
